@@ -73,6 +73,34 @@ CLAIMED["C03"] = dict(
     design="§4 C03",
 )
 
+CLAIMED["C14"] = dict(
+    text="Lean 4 theorems, each for inputs of any size: C14_files_perm / C14_files_chunks (the sorted project report produced by the "
+         "model of the ProjectReport.generate loop and its derived sets is the same for every order in which the per-file "
+         "results arrive - serial map, pool, any chunking or completion order - and every iteration order of project.licenses), "
+         "C14_walk_perm / C14_walk_set (the pruned walk yields the same files whatever order every directory of a tree of any "
+         "depth is listed in), C14_tomls_perm (_find_relevant_tomls returns the same list for every order of the REUSE.toml "
+         "files, one per directory), C14_licenses_perm (_find_licenses fails for all glob orders or none and otherwise builds "
+         "the same dictionary), C14_end_perm / C14_end_generated (the END language - one starred alternation over the "
+         "alternatives regenerated from the source - is invariant under permuting the alternatives; C14_end_seq_order_witness "
+         "proves the previous concatenation-of-stars shape is not), C14_root_relative / C14_root / C14_root_walk (every spelling "
+         "of the root names each file by the same project-relative path and denotes the same file; the repaired walk does not "
+         "consult the spelling; C14_root_name_witness proves the previous Meson parent-name rule did). Tied to the code by "
+         "differentials of each modelled function against the real one with the hidden order varied on the implementation side, "
+         "and by real `lint --json` / `spdx` runs of generated projects under ~30 configurations each (serial, real and shuffled "
+         "pools of 1-16 workers, shuffled os.walk/glob, 6-16 PYTHONHASHSEED values in child interpreters and `python -m reuse`, "
+         "4 working directories, 13 root spellings, Git root discovery) whose normalised outputs must coincide.",
+    note="Partial: which process handles which file, fork/pickle, the per-worker dep5 re-parse and the hash seed itself are run-time "
+         "facts covered only by the runs/endpat streams on the explored trees. Offender paths printed by lint follow the spelling of "
+         "the root and are compared by the file they denote. Trusted: Lean kernel, gen_tables.py (END alternatives parsed from the "
+         "live pattern text, \\s ranges read off the interpreter), the harness, CPython re (mirrored by the verified matcher), "
+         "pathlib/os.path (mirrored by parsePath/normParts and compared on every spelling), no symlinks on the way to the root. "
+         "Two defects found and repaired by delivered patches: hash-seed dependent END pattern (fixes/end-pattern-order.diff), root's "
+         "own name feeding the Meson rule (fixes/meson-root-name.diff); on a tree without them the check reports both.",
+    technique="Lean 4 proof (induction over List.Perm, mutual induction over the tree, verified regex language) + model/implementation "
+              "differential + metamorphic real runs across schedules, listing orders, hash seeds, working directories and root spellings",
+    design="§4 C14",
+)
+
 NOT_YET = {}
 
 
